@@ -23,12 +23,14 @@ pub fn run_program(p: &J, dbset: &J, conns: &[rusqlite::Connection], target: &st
         api::Outcome::Ok(sql) => {
             sideinfo["sql"] = json!(sql);
             let rqcols = api::rq_columns(&src).unwrap_or_default();
+            sideinfo["rqcols"] = json!(rqcols);
             let mut names: Vec<String> = vec![];
             let mut rows = vec![];
             let mut err: Option<String> = None;
             for c in conns {
                 match db::query(c, &sql) {
                     Ok(r) => {
+                        sideinfo["names"] = json!(r.names);
                         names = r.names;
                         rows.push(json!(r.rows));
                     }
